@@ -61,8 +61,8 @@ ID = "C06"
 CASES = {"quick": 2400, "thorough": 120000}
 BUDGET_S = {"quick": 45, "thorough": 700}
 RULE = ("histories of index/reindex/unindex+index/unindex/reset (keyword, facet: also optimize() and "
-        "tree_threshold changes over {1,2,3}, rarely 64) per index kind (field, keyword, facet; text is added "
-        "when its model lands) incl. re-indexing identical content (same list, reordered, with duplicates), "
+        "tree_threshold changes over {1,2,3}, rarely 64) per index kind (field, keyword, facet, text with Okapi and cosine back "
+        "ends, four pipelines, DICT_CUTOFF 2/3/default) incl. re-indexing identical content (same list, reordered, with duplicates), "
         "value <-> no value alternation, empty keyword/path lists on known and unknown ids, paths matching "
         "no configured facet, unindexing unknown ids, reset in the middle, both BTrees families, attribute and "
         "callable discriminators, list and tuple values; after every operation the whole observable tuple "
@@ -73,14 +73,15 @@ RULE = ("histories of index/reindex/unindex+index/unindex/reset (keyword, facet:
         "observation tuples")
 LEVEL_TEXT = ("Lean 4: the refinement invariant makes every enumeration/statistics answer a function of the "
               "current document table (field: docid -> value; keyword: docid -> keyword set; facet: docid -> "
-              "configured facets that are a ':'-prefix of a current path), for every history, every "
+              "configured facets that are a ':'-prefix of a current path; text: docid -> token list), for every history, every "
               "tree_threshold and every placement of optimize(); proved consequences per kind: bookkeeping "
               "identities, fresh-index equivalence, history independence, reindex = unindex+index, unindex of "
               "unknown ids is a no-op (keyword/facet: the state is literally unchanged), unindex erases every "
               "trace, reset = new index. Correspondence: real indexes vs compiled model vs specification "
               "table vs fresh real index after every op")
 LEVEL_NOTE = ("trusted: Lean kernel, BTrees semantics as modelled, sampled correspondence, harness; proved for "
-              "the field, keyword and facet index; the text index is covered once its model is merged. "
+              "the field, keyword, facet and text index (text: equality of fresh and historical index is up to "
+              "word-id renaming; Okapi's total document length is proved but private, hence not observed). "
               "document_repr of keyword/facet is compared as the parsed OOSet repr (members in key order)")
 TECHNIQUE = "Lean 4 refinement invariant + observational-equivalence theorems; differential correspondence after every op"
 
